@@ -35,6 +35,11 @@ TEXT_MODS = [[], ["ascii"], ["wide"], ["ascii", "wide"], ["nocase"], ["wide", "n
 REGEX_MODS = [[], ["nocase"], ["wide"], ["ascii", "wide"], ["fullword"], ["wide", "nocase"], ["wide", "fullword"],
               ["ascii", "wide", "nocase", "fullword"], ["private"]]
 
+BUILTIN_MODULES = ["time", "math", "string", "hash", "pe", "elf", "macho", "dotnet", "dex"]
+PROBES = {"time": 'import "time"\nrule probe_time { condition: time.now() == 1000 }',
+          "string": 'import "string"\nrule probe_string { condition: string.length("abc") == 7 and string.to_int("12") == 99 }',
+          "vmod": 'import "vmod"\nrule probe_vmod { condition: vmod.answer() == 42 and vmod.sub.twice(4) == 8 }'}
+
 
 def unescape(w):
     out, i = bytearray(), 0
@@ -431,7 +436,13 @@ class Gen:
                     c = csymbols[0]
                     s.append({"name": c["name"], ("bool" if "int" in c else "int"): (True if "int" in c else 3)})
                 ext.append(s)
-        return {"rules": rules, "csymbols": csymbols, "params": params, "profile": r.choice(["speed", "speed", "memory"]),
+        user_modules = []
+        if r.chance(1, 5):
+            user_modules = ["time"] if r.chance(2, 3) else ["vmod", "time"]
+            for m in user_modules:
+                rules.append({"ns": "probes", "src": PROBES[m]})   # own namespace: no global rule interferes
+        return {"user_modules": user_modules,
+                "rules": rules, "csymbols": csymbols, "params": params, "profile": r.choice(["speed", "speed", "memory"]),
                 "inputs": inputs, "variants": variants, "ext": ext, "nvars": nvars, "kinds": sorted(self.kinds),
                 "modules": sorted(mods_used)}
 
@@ -568,6 +579,24 @@ class C10(Prop):
                                                          {"mem": bytes(x ^ 7 for x in b" dle ").hex()}],
                           "variants": [{"params": {"compute_full_matches": True}, "api": "list"}], "ext": [], "nvars": 3,
                           "kinds": ["catalogue profile " + profile], "modules": [], "expect": "compiles"})
+        # user modules given to the compiler and again on reload; "time" and "string" replace a built-in by name
+        def mods_case(user, extra_rules, without=False):
+            rules = [{"ns": "probes", "src": PROBES[m]} for m in user] + [{"ns": None, "src": r} for r in extra_rules]
+            return {"rules": rules, "csymbols": [], "params": {}, "profile": "speed", "user_modules": user,
+                    "reload_without_user_modules": without, "inputs": [{"mem": ""}, {"mem": "616263"}],
+                    "variants": [{"params": {"include_not_matched": True}, "api": "list"},
+                                 {"params": {"events": 7}, "api": "callback"}], "ext": [], "nvars": 0,
+                    "kinds": ["catalogue user modules " + "+".join(user)], "modules": [], "expect": "compiles"}
+        cases.append(mods_case(["time"], ['import "time"\nrule later { condition: time.now() > 2000 }',
+                                          'import "time"\nrule frozen_static { condition: time.epoch == 1000 }']))
+        cases.append(mods_case(["string"], ['import "string"\nrule five { condition: string.length("hello") == 5 }']))
+        cases.append(mods_case(["vmod"], ['import "math"\nimport "vmod"\nrule both { condition: math.min(vmod.answer(), 50) == 42 }'],
+                               without=True))
+        cases.append(mods_case(["vmod", "time", "string"],
+                               ['import "math"\nimport "hash"\nrule builtins { condition: math.max(1, 2) == 2 and '
+                                'hash.md5("abc") == "900150983cd24fb0d6963f7d28e17f72" }'], without=True))
+        cases.append(mods_case(["time"], ['import "pe"\nimport "time"\nimport "math"\nrule mix { condition: not pe.is_pe and '
+                                          'math.abs(time.now() - 1000) == 0 }']))
         return cases
 
     def generate(self, ctx, rng, n):
@@ -602,6 +631,8 @@ class C10(Prop):
             for m in c.get("modules", []):
                 ctx.count("module " + m)
             ctx.count("csymbols=%d" % len(c.get("csymbols", [])))
+            if c.get("user_modules"):
+                ctx.count("user modules " + "+".join(c["user_modules"]))
             if isinstance(o, dict):
                 if "compile_error" in o:
                     ctx.count("compile_error")
@@ -650,7 +681,23 @@ class C10(Prop):
         p = case.get("params") or {}
         prm = gpair(gpair(gpair(gbool(p.get("compute_full_matches", False)), gN(p.get("match_max_length", 512))),
                           gN(p.get("string_max_nb_matches", 1000))), gbool(p.get("include_not_matched", False)))
-        return "C10_case %s %s %s %d %s" % (gbytes(file), lst, prm, case.get("nvars", 0), gbool(bool(out["same"])))
+        base = "%s %s %s %d %s" % (gbytes(file), lst, prm, case.get("nvars", 0), gbool(bool(out["same"])))
+        user = case.get("user_modules") or []
+        if not user:
+            return "C10_case " + base
+        seen = (out.get("user_impl_seen") or {}).get("reloaded") or {}
+        seen_orig = (out.get("user_impl_seen") or {}).get("orig") or {}
+        if not all(seen_orig.get(m) for m in user):
+            return (False, False, 0)      # the probe rules must recognise the user modules on the original scanner
+        if case.get("reload_without_user_modules"):
+            w = str(out.get("reload_without_user_modules"))
+            # a module that is not built in must be given again; replaced built-ins fall back to the built-in
+            if ("vmod" in user) != w.startswith("error: unknown module"):
+                return (False, False, 0)
+        return "C10_case_mods %s %s %s %s" % (
+            base, glist([gbytes(m.encode()) for m in BUILTIN_MODULES]),
+            glist([gpair(gbytes(m.encode()), gN(i + 1)) for i, m in enumerate(user)]),
+            glist([gpair(gbytes(m.encode()), gbool(bool(seen.get(m)))) for m in user]))
 
     def nontrivial(self, case, out):
         if not isinstance(out, dict) or "file" not in out:
